@@ -15,6 +15,7 @@
 -/
 import UnifexModel.Proto.Bulk
 import UnifexModel.Proto.FindIf
+import UnifexModel.Generated.BulkPolicy
 import UnifexModel.Lemmas.BulkLoop
 import UnifexModel.Lemmas.FindIfTiles
 
@@ -76,6 +77,80 @@ theorem no_next_after_terminal (u stoppable : Bool) (stopAt : Option Nat) (n : N
       by_cases h : boundaryAfter t < n
       · exact ⟨boundaryAfter t, Ev.done, by rw [if_pos h], by omega, Or.inr ⟨rfl, rfl, by simp⟩⟩
       · exact ⟨n, Ev.value, by rw [if_neg h], Nat.le_refl _, Or.inl ⟨rfl, rfl⟩⟩
+
+/-! ## execution policies (Generated/BulkPolicy.lean: bulk_transform / bulk_join / default / bulk_schedule) -/
+
+section policies
+open Unifex.Proto.PolicyLattice Unifex.Generated.BulkPolicy
+
+/-- The policy that `bulk_transform(src, f, func_policy)` advertises to its source, above a receiver
+    advertising `receiver_policy`, is the MEET of the two — for all 16 pairs: it permits concurrent
+    (interleaved) invocation iff BOTH the function's policy and the receiver's policy do. -/
+theorem bulk_transform_policy_is_meet (receiver_policy func_policy : Policy) :
+    tfx_policy receiver_policy func_policy = meet receiver_policy func_policy := by
+  cases receiver_policy <;> cases func_policy <;> decide
+
+/-- spelled out: never more permissive than the function's or the receiver's policy, and the most
+    permissive policy with that property -/
+theorem bulk_transform_policy_is_glb (r f : Policy) :
+    (tfx_policy r f).le f = true ∧ (tfx_policy r f).le r = true ∧
+    ∀ q : Policy, q.le r = true → q.le f = true → q.le (tfx_policy r f) = true := by
+  refine ⟨?_, ?_, ?_⟩
+  · cases r <;> cases f <;> decide
+  · cases r <;> cases f <;> decide
+  · intro q; cases r <;> cases f <;> cases q <;> decide
+
+/-- a function registered with a policy that forbids concurrent invocation is never advertised to
+    the source as parallelisable, whatever is downstream (and likewise for interleaving) -/
+theorem bulk_transform_never_parallelises_a_sequential_function (r f : Policy) :
+    (f.allowsPar = false → (tfx_policy r f).allowsPar = false) ∧
+    (f.allowsUnseq = false → (tfx_policy r f).allowsUnseq = false) ∧
+    (r.allowsPar = false → (tfx_policy r f).allowsPar = false) ∧
+    (r.allowsUnseq = false → (tfx_policy r f).allowsUnseq = false) := by
+  cases r <;> cases f <;> decide
+
+/-- a chain `src | bulk_transform(f₁,P₁) | … | bulk_transform(fₖ,Pₖ) | receiver`: the policy seen by
+    the source (`ps` lists the function policies from the receiver outwards: Pₖ, …, P₁) is the meet of
+    all of them with the receiver's policy — for chains of every length -/
+def chainPolicy (r : Policy) (ps : List Policy) : Policy := ps.foldl tfx_policy r
+
+theorem chain_policy_is_meet (r : Policy) (ps : List Policy) : chainPolicy r ps = ps.foldl meet r := by
+  unfold chainPolicy
+  induction ps generalizing r with
+  | nil => rfl
+  | cons p ps ih => simp only [List.foldl_cons, bulk_transform_policy_is_meet, ih]
+
+theorem chain_never_parallelises_a_sequential_function (r : Policy) (ps : List Policy) (p : Policy)
+    (hp : p ∈ ps) (h : p.allowsPar = false) : (chainPolicy r ps).allowsPar = false := by
+  rw [chain_policy_is_meet]
+  have mono : ∀ (qs : List Policy) (a : Policy), a.allowsPar = false → (qs.foldl meet a).allowsPar = false := by
+    intro qs
+    induction qs with
+    | nil => intro a ha; exact ha
+    | cons q qs ih => intro a ha; exact ih (meet a q) (by rw [meet_allowsPar, ha, Bool.false_and])
+  induction ps generalizing r with
+  | nil => cases hp
+  | cons q qs ih =>
+    simp only [List.foldl_cons]
+    rcases List.mem_cons.mp hp with rfl | hq
+    · exact mono qs _ (by rw [meet_allowsPar, h, Bool.and_false])
+    · exact ih _ hq
+
+/-- bulk_join advertises par_unseq, an uncustomised receiver seq; bulk_schedule takes the vectorised
+    loop exactly for the policies that allow interleaving (both loop variants) -/
+theorem policy_constants :
+    join_policy = Policy.par_unseq ∧ default_policy = Policy.seq ∧
+    (∀ p, schedule_vectorised_stop p = p.allowsUnseq) ∧ (∀ p, schedule_vectorised_plain p = p.allowsUnseq) := by
+  refine ⟨by decide, by decide, ?_, ?_⟩ <;> intro p <;> cases p <;> decide
+
+/-- find_if's composition `bulk_join(bulk_transform(bulk_schedule(…), chunk-lambda, par))`: the chunk
+    lambda's receiver advertises `par`, so bulk_schedule runs the non-vectorised loop (the `u = false`
+    with which Proto/FindIf.lean instantiates the bulk loop model) -/
+theorem find_if_bulk_policy_is_par :
+    tfx_policy join_policy Policy.par = Policy.par ∧
+    schedule_vectorised_stop (tfx_policy join_policy Policy.par) = false := by decide
+
+end policies
 
 /-! ## find_if -/
 
